@@ -32,7 +32,8 @@ LEVEL_TEXT = (
     "outputs satisfy the plain-set specification, the list/dict invariant holds in every reachable state, every "
     "member can be drawn, the draw is a bijection between the indices below len and the members (each member is "
     "returned by exactly one index, the one its hashmap entry stores; len = cardinality: C20_draw_bijection, so a "
-    "uniform index is a uniform member), removal of an absent element raises and leaves the state unchanged. The model is tied to "
+    "uniform index is a uniform member), removing a member and re-inserting it restores exactly the same members and "
+    "len from any state (C20_remove_then_reinsert), removal of an absent element raises and leaves the state unchanged. The model is tied to "
     "gcmpy/tools/draw_set.py by an every-step exact comparison of outputs, _edges and _edge_hashmap "
     "(exhaustive short histories + random long ones), and the verified checker c20_check judges the "
     "implementation's own outputs.")
